@@ -596,7 +596,7 @@ func (rc *runCtx) runChunk(ph fw.Phase, lo, hi int, prefix string) int {
 	// kill stray children of the worker (process group)
 	syscall.Kill(-cmd.Process.Pid, syscall.SIGKILL)
 
-	completed := rc.ingest(prefix+".res", ph)
+	completed := rc.ingest(prefix+".res", ph, lo, hi)
 	if ph.Race {
 		rc.ingestRace(prefix, ph, lo, hi)
 	}
@@ -685,7 +685,7 @@ func prlimit(pid int, resource int, lim *syscall.Rlimit) {
 	syscall.RawSyscall6(syscall.SYS_PRLIMIT64, uintptr(pid), uintptr(resource), uintptr(ptr(lim)), 0, 0, 0)
 }
 
-func (rc *runCtx) ingest(path string, ph fw.Phase) (completed bool) {
+func (rc *runCtx) ingest(path string, ph fw.Phase, lo, hi int) (completed bool) {
 	f, err := os.Open(path)
 	if err != nil {
 		return false
@@ -723,8 +723,13 @@ func (rc *runCtx) ingest(path string, ph fw.Phase) (completed bool) {
 				a.samples = append(a.samples, r.Sample)
 			}
 		case "viol":
-			a.viols = append(a.viols, &violation{Replay: fw.Replay{Property: rc.prop, Tier: rc.tier, Seed: rc.seed, Phase: ph.Name,
-				Case: r.Case, Sig: r.Sig, Detail: r.Detail, Input: r.Input}})
+			v := &violation{Replay: fw.Replay{Property: rc.prop, Tier: rc.tier, Seed: rc.seed, Phase: ph.Name,
+				Case: r.Case, Sig: r.Sig, Detail: r.Detail, Input: r.Input}}
+			if strings.HasSuffix(ph.Name, companySuffix) && !rc.replayMode {
+				// what was observed in company depends on what overlapped: the replay runs the whole chunk again
+				v.Case, v.Hi = lo, hi
+			}
+			a.viols = append(a.viols, v)
 		case "inconc":
 			if len(a.inconcl) < 50 {
 				a.inconcl = append(a.inconcl, r)
